@@ -593,7 +593,7 @@ def assemble_fn(repo, fs, record, canary=None, stub=False, soft=None):
         pieces.append((ins, tag))
         last = off
     pieces.append((text[last:], 'CODE'))
-    record.append({'fn': (fs.within + '::' if fs.within else '') + fs.name, 'file': fs.file, 'line': line0,
+    record.append({'code': text, 'simple': fs.name, 'fn': (fs.within + '::' if fs.within else '') + fs.name, 'file': fs.file, 'line': line0,
                    'sha256': sha, 'rules': fired, 'n_loops': len(loop_idx), 'n_canaries': n_canaries})
     return pieces
 
@@ -762,13 +762,17 @@ def build_unit(verif, repo, template_path, canary=False, soft=False, extra_fns=N
                 emit('}\n', 'TPL', '%s:%d' % (rel, i + 1))
                 ifile = impl_open[0] if impl_open else None
                 impl_open = None
-                for (xf, xn) in list(extra_fns):
-                    if xf == ifile and (xf, xn) not in state.setdefault('extra_done', set()):
-                        state['extra_done'].add((xf, xn))
+                for ent in list(extra_fns):
+                    xf, xn = ent[0], ent[1]
+                    xw = ent[2] if len(ent) > 2 else None
+                    if xf == ifile and ent not in state.setdefault('extra_done', set()):
+                        state['extra_done'].add(ent)
                         xs = FnSpec(); xs.file, xs.name, xs.tline = xf, xn, i + 1
+                        xs.within = xw
+                        if xw: emit('impl %s {\n' % xw, 'TPL', rel)
                         xs.bodyprefix = state['bodyprefix']
                         try:
-                            xp = assemble_fn(repo, xs, u.functions, None, soft=u.degraded)
+                            xp = assemble_fn(repo, xs, u.functions, None, stub=True, soft=u.degraded)
                         except ExtractError as e:
                             u.degraded.append('helper %s could not be extracted: %s' % (xn, e)); continue
                         u.functions[-1]['fn'] = '::'.join(state['mods'] + [xn]); u.functions[-1]['vname'] = u.functions[-1]['fn']
@@ -778,6 +782,7 @@ def build_unit(verif, repo, template_path, canary=False, soft=False, extra_fns=N
                         for txt, tag in xp:
                             emit(txt, tag + '|' + u.functions[-1]['fn'], '%s:%d' % (xf, u.functions[-1]['line']))
                         emit('\n', 'TPL', rel)
+                        if xw: emit('}\n', 'TPL', rel)
                 i += 1; continue
             if cmd == 'stub':
                 # //@ stub <template> <repo file> <name> [in "<impl header>"] : same signature and contract as in the home unit, body assumed
@@ -866,13 +871,15 @@ def build_unit(verif, repo, template_path, canary=False, soft=False, extra_fns=N
                     origin = '%s:%d' % (fs.file, u.functions[-1]['line']) if tag == 'CODE' else '%s:%d' % (rel, fs.tline)
                     emit(txt, tag + '|' + fname, origin)
                 emit('\n', 'TPL', rel)
-                for (xf, xn) in list(extra_fns):
-                    if xf == fs.file and (not fs.within or not impl_open) and (xf, xn) not in state.setdefault('extra_done', set()):
-                        state['extra_done'].add((xf, xn))
+                for ent in list(extra_fns):
+                    if len(ent) > 2: continue      # methods are emitted at endimpl
+                    xf, xn = ent
+                    if xf == fs.file and (not fs.within or not impl_open) and ent not in state.setdefault('extra_done', set()):
+                        state['extra_done'].add(ent)
                         xs = FnSpec(); xs.file, xs.name, xs.tline = xf, xn, fs.tline
                         xs.bodyprefix = fs.bodyprefix
                         try:
-                            xp = assemble_fn(repo, xs, u.functions, None, soft=u.degraded)
+                            xp = assemble_fn(repo, xs, u.functions, None, stub=True, soft=u.degraded)
                         except ExtractError as e:
                             u.degraded.append('helper %s could not be extracted: %s' % (xn, e)); continue
                         u.functions[-1]['fn'] = '::'.join(state['mods'] + [xn]); u.functions[-1]['vname'] = u.functions[-1]['fn']
@@ -903,3 +910,36 @@ def classify_offset(u, off):
         if s <= off < e:
             return tag, origin
     return ('?', '?')
+
+def call_closure(unit, roots):
+    """functions (ids) reachable from the root patterns through calls between extracted functions.
+    Name based and deliberately over-approximate: `x.name(`, `T::name(` and `name(` all count; for a name that
+    several extracted functions share, a `T::name(` occurrence selects T, otherwise every candidate is taken."""
+    fns = unit.functions
+    by_simple = {}
+    for f in fns:
+        by_simple.setdefault(f['simple'], []).append(f)
+    def matches(fid, pats):
+        for p in pats:
+            if p == fid or (p.endswith('*') and fid.startswith(p[:-1])): return True
+        return False
+    todo = [f for f in fns if matches(f['fn'], roots)]
+    seen = set(f['fn'] for f in todo)
+    while todo:
+        f = todo.pop()
+        toks = [t for t in lex(f.get('code', '')) if t.kind != 'comment']
+        for i, t in enumerate(toks):
+            if t.kind != 'id' or t.text not in by_simple: continue
+            if i + 1 >= len(toks) or toks[i+1].text not in ('(', '::'):
+                # also function items passed by name: map_err(read_err)
+                if not (i > 0 and toks[i-1].text == '(' and i + 1 < len(toks) and toks[i+1].text == ')'):
+                    continue
+            cands = by_simple[t.text]
+            if len(cands) > 1 and i >= 2 and toks[i-1].text == '::' and toks[i-2].kind == 'id':
+                ty = toks[i-2].text
+                sel = [c for c in cands if ('::' + ty + '::') in ('::' + c['fn']) or (' for ' + ty + '::') in c['fn'] or c['fn'].startswith(ty + '::')]
+                if sel: cands = sel
+            for c in cands:
+                if c['fn'] not in seen and c['fn'] != f['fn']:
+                    seen.add(c['fn']); todo.append(c)
+    return seen
